@@ -104,7 +104,10 @@ def clade_sets(tree, key=None):
     return nodes, below
 
 
-def split_lengths(tree, rooted, key=None, include_trivial=True):
+ROOT_EDGE = ("<seed edge>",)
+
+
+def split_lengths(tree, rooted, key=None, include_trivial=True, include_root_edge=False):
     """Reference split -> summed edge length map.
 
     rooted: clades (frozenset of leaf keys).  unrooted: bipartitions of the
@@ -139,6 +142,9 @@ def split_lengths(tree, rooted, key=None, include_trivial=True):
         out[s] = out.get(s, 0) + ln
     if rooted:
         out.setdefault(allk, 0)
+    if include_root_edge:
+        # the library's encoding holds the seed edge too (its bipartition spans all leaves); a missing length counts 0
+        out[ROOT_EDGE] = nodes[0]._edge.length or 0
     return out, all_present
 
 
